@@ -60,6 +60,7 @@ class Harness:
         self.timeout = int(meta.get("timeout", "600"))
         self.mem_gb = int(meta.get("mem", "16"))
         self.replay = meta.get("replay", "playback")  # playback | none
+        self.ram = int(meta.get("ram", "3"))  # expected peak GB (thorough-tier scheduling weight)
         self.role = meta.get("role", name)
         self.bounds = lines.get("bounds", [])
         self.encodes = lines.get("encodes", [])
@@ -402,8 +403,30 @@ def check(prop, tier, only=None, jobs=None):
         prepare_group(g)
     jobs = jobs or int(os.environ.get("VERIF_JOBS", "0") or 0) or min(14, os.cpu_count() or 4)
     results = []
+    # thorough tier: many multi-GB harnesses at once exhaust the machine (measured: 13 LRU history harnesses of
+    # ~7 M variables -> CBMC out of memory); schedule by expected peak memory (annotation ram=<GB>, default 3)
+    import threading
+    ram_budget = int(os.environ.get("VERIF_RAM_GB", "44"))
+    ram_cv = threading.Condition()
+    ram_used = [0]
+
+    def run_weighted(h):
+        if tier != "thorough":
+            return run_harness(h, tier)
+        w = min(h.ram, ram_budget)
+        with ram_cv:
+            while ram_used[0] + w > ram_budget:
+                ram_cv.wait()
+            ram_used[0] += w
+        try:
+            return run_harness(h, tier)
+        finally:
+            with ram_cv:
+                ram_used[0] -= w
+                ram_cv.notify_all()
+
     with cf.ThreadPoolExecutor(max_workers=jobs) as ex:
-        futs = {ex.submit(run_harness, h, tier): h for h in hs}
+        futs = {ex.submit(run_weighted, h): h for h in hs}
         for fu in cf.as_completed(futs):
             r = fu.result()
             results.append((futs[fu], r))
